@@ -15,8 +15,8 @@ EXTENDS Coll, Json, IOUtils
 
 Rec == ndJsonDeserialize(IOEnv.TRACE)
 
-VARIABLES l, V, B, held, dropped
-cvars == <<l, V, B, held, dropped>>
+VARIABLES l, V, B, held, dropped, zlen, zheld, cv
+cvars == <<l, V, B, held, dropped, zlen, zheld, cv>>
 
 SeqToSet(s) == {s[i] : i \in 1..Len(s)}
 AllIds(VV) == UNION {IdsOf(VV[i]) : i \in 1..Len(VV)}
@@ -48,10 +48,50 @@ Chk(prop, name, cond, wit) ==
                 <<Rec[l].p, Rec[l].i, Rec[l].op, Rec[l].im>>, wit>>)
 
 GrowOps == {"push", "insert", "extend", "extend_from_slice", "resize", "append", "splice"}
-InfoRetOps == {"into_bump_slice", "into_boxed_slice", "box_leak", "box_raw_roundtrip", "box_from_iter", "box_read"}
+InfoRetOps == {"into_bump_slice", "into_boxed_slice", "box_leak", "box_raw_roundtrip", "box_from_iter", "box_read", "box_downcast", "box_array"}
 
-Step ==
-  /\ l <= Len(Rec)
+\* ---- zero-sized elements: the same laws, counted ---------------------------------
+ZStep ==
+  LET e == Rec[l]
+      first == e.i = 0
+      len0 == IF first THEN -1 ELSE zlen
+      held0 == IF first THEN 0 ELSE zheld
+      x == ZSem(e, len0)
+      panicked == e.res = "panic"
+      lenA == IF e.alive = 1 THEN e.len ELSE 0
+  IN /\ Chk("C13", "PanicsExactlyWhenStdDoes", panicked = x.panics, <<e.res, x.panics, e.a, e.rg, len0>>)
+     /\ Chk("C13", "ContentsAsSpecified", (~panicked /\ ~x.panics /\ len0 >= 0 /\ ~x.gone) => e.alive = 1 /\ e.len = x.len, <<x.len, e.len>>)
+     /\ Chk("C13", "ReturnsAsSpecified", (~panicked /\ ~x.panics /\ e.op # "zdrop") => e.zr = x.ret, <<x.ret, e.zr>>)
+     /\ Chk("C13", "CapacityNeverBelowLength", e.alive = 1 => e.cap >= e.len, <<e.len, e.cap>>)
+     \* every element created is in the vector, with the caller, or destroyed -- exactly once
+     /\ Chk("C15", "EveryElementAccountedForExactlyOnce",
+            ~panicked => (IF len0 < 0 THEN 0 ELSE len0) + held0 + e.zc = lenA + (held0 + e.zr) + e.zd,
+            <<len0, held0, e.zc, lenA, e.zr, e.zd>>)
+     /\ Chk("C16", "NoDoubleDrop", (IF len0 < 0 THEN 0 ELSE len0) + held0 + e.zc >= lenA + (held0 + e.zr) + e.zd,
+            <<len0, held0, e.zc, lenA, e.zr, e.zd>>)
+     /\ zlen' = IF e.alive = 1 THEN e.len ELSE -1
+     /\ zheld' = held0 + e.zr
+     /\ UNCHANGED <<V, B, held, dropped, cv>>
+
+\* ---- Copy elements: values only ------------------------------------------------------
+CStep ==
+  LET e == Rec[l]
+      first == e.i = 0
+      s == IF first THEN <<>> ELSE cv
+      got == ValsOf(e.after)
+      exp == CASE e.op = "cnew" -> <<>>
+               [] e.op = "cpush" -> s \o e.vals
+               [] e.op \in {"extend_from_slice_copy", "extend_from_slices_copy"} -> s \o e.vals
+               [] e.op \in {"vec_macro", "collect_in"} -> e.vals
+               [] OTHER -> s
+  IN /\ Chk("C13", "ContentsAsSpecified", e.res = "ok" /\ (e.op = "io_write" \/ (e.alive = 1 /\ got = exp)), <<exp, got>>)
+     /\ Chk("C13", "WriteAppendsAllBytes",
+            e.op = "io_write" => e.retn = Len(e.vals) /\ ValsOf(e.ret) = <<7>> \o e.vals \o <<1, 2>>, <<e.retn, e.ret>>)
+     /\ Chk("C13", "CapacityNeverBelowLength", e.alive = 1 => e.cap >= e.len, <<e.len, e.cap>>)
+     /\ cv' = IF e.alive = 1 THEN got ELSE s
+     /\ UNCHANGED <<V, B, held, dropped, zlen, zheld>>
+
+TStep ==
   /\ LET e == Rec[l]
          first == e.i = 0
          hasPrev == ~first /\ l > 1
@@ -95,6 +135,12 @@ Step ==
             (e.op \in {"box_drop", "box_into_inner", "box_leak", "box_raw_roundtrip"} /\ e.im = "bump" /\ hasPrev)
                => e.gafree = 0 /\ e.ab = Rec[l - 1].ab, <<e.gafree, e.ab>>)
      /\ Chk("C17", "BoxForwardsToValue", (e.op = "box_read" /\ e.retn >= 0) => e.retn = 1, e.retn)
+     \* comparisons, hashing, formatting, Iterator / DoubleEndedIterator / ExactSizeIterator, Hasher, Future,
+     \* Deref / AsRef / Borrow / Pin: every method gives what the value itself gives (bit k set = method k differs)
+     /\ Chk("C17", "EveryTraitMethodForwardsToTheValue", (e.op = "box_forward" /\ ~panicked) => e.retn = 0, <<e.a, e.retn>>)
+     /\ Chk("C17", "DowncastPreservesTheValue",
+            (e.op = "box_downcast" /\ ~panicked /\ e.a >= 0 /\ e.a + 1 <= Len(B0) /\ B0[e.a + 1] # NoVec) => e.retn = 1,
+            <<e.flag, e.b, e.retn>>)
      \* ---------------------------------------------------------- C15 ----
      /\ Chk("C15", "NoDoubleDrop", Cardinality(drops) = Len(e.drops) /\ drops \cap dropped0 = {},
             <<e.drops, drops \cap dropped0>>)
@@ -129,9 +175,16 @@ Step ==
             (e.moved = 1 /\ e.op = "push" /\ e.cap0 > 0) => e.cap >= 2 * e.cap0, <<e.cap0, e.cap>>)
      \* ---------------------------------------------------------------------
      /\ V' = e.all /\ B' = e.bx /\ held' = heldA /\ dropped' = dropped0 \cup drops
-     /\ l' = l + 1
+     /\ UNCHANGED <<zlen, zheld, cv>>
 
-Init == l = 1 /\ V = <<>> /\ B = <<>> /\ held = {} /\ dropped = {}
+Step ==
+  /\ l <= Len(Rec)
+  /\ CASE Rec[l].ty = "Z" -> ZStep
+       [] Rec[l].ty = "C" -> CStep
+       [] OTHER -> TStep
+  /\ l' = l + 1
+
+Init == l = 1 /\ V = <<>> /\ B = <<>> /\ held = {} /\ dropped = {} /\ zlen = -1 /\ zheld = 0 /\ cv = <<>>
 Spec == Init /\ [][Step]_cvars
 
 Accepted ==
